@@ -33,6 +33,12 @@ def prop(line, impl, model):
             return prop_jkey(line, impl)
         if op == "jipc":
             return (prop_jipc(line, impl) or (None, None))[1]
+        if op == "jwf":
+            return (prop_jwf(line, impl) or (None, None))[1]
+        if op == "jipcf":
+            return (prop_jipcf(line, impl) or (None, None))[1]
+        if op == "sched":
+            return prop_sched(line, impl)
         if op == "bin":
             n, v = int(a[2]), int(impl)
             if not (n <= v < n + 8 and v % 8 == 0):
@@ -61,12 +67,32 @@ def prop(line, impl, model):
     return None
 
 
+def prop_sched(line, impl):
+    """forced schedule on the real counter: whatever a scrape can read is bin8(completed Incs)"""
+    d = kv(impl)
+    items = d["obs"].split(",") if d["obs"] != "-" else []
+    last = 0
+    for i, it in enumerate(items):
+        if it == "-":
+            continue
+        done, v = map(int, it.split(":"))
+        if v != bin8(done):
+            return ("forced schedule, step %d: %d Incs completed and no Inc in progress, the counter publishes %d (want %d)"
+                    % (i + 1, done, v, bin8(done)))
+        if done < last:
+            return "forced schedule, step %d: completed Incs went back from %d to %d" % (i + 1, last, done)
+        last = done
+    return None
+
+
 # ---------------------------------------------------------------- ipc op sequences
-def spec_ipc(ops):
+def spec_ipc(ops, geo=True):
     """The property's own reading of an op sequence: true counts per period, distinct addresses per
     normalised type, cumulative label counts. Returns (list of per-print dicts, prom dict)."""
     ev = dict.fromkeys(["idle", "with", "without", "rejected", "denied", "rdenied", "udenied", "matched"], 0)
     sets = {u: set() for u in range(5)}
+    nat = {"r": set(), "u": set(), "k": set()}    # addresses by the NAT type of the first sighting per (type, address)
+    cc = {}                                        # country -> number of first sightings
     prom = {}
     reports = []
     def bump(k):
@@ -83,6 +109,10 @@ def spec_ipc(ops):
                 bump("rj.%d.%d" % (n, u))
                 continue
             if f[1] != "-":
+                if f[1] not in sets[u] and geo:
+                    # UpdateCountryStats looks at NAT type and country only at the first sighting of (type, address)
+                    nat["r" if n == 1 else "u" if n == 2 else "k"].add(f[1])
+                    cc[f[2]] = cc.get(f[2], 0) + 1
                 sets[u].add(f[1])
             if out == "i":
                 ev["idle"] += 1
@@ -102,11 +132,16 @@ def spec_ipc(ops):
             for u in range(4):
                 r["ips.%d" % u] = len(sets[u])
             r["ips.total"] = sum(len(x) for x in sets.values())
+            for b in "ruk":
+                r["nat." + b] = len(nat[b])
+            r["cc"] = dict(cc)
             reports.append(r)
         elif f[0] == "ze":
             for k in ev:
                 ev[k] = 0
             sets = {u: set() for u in range(5)}
+            nat = {"r": set(), "u": set(), "k": set()}
+            cc = {}
     return reports, {k: bin8(v) for k, v in prom.items()}
 
 
@@ -119,15 +154,23 @@ def parse_items(s):
 def prop_ipc(line, impl):
     a = line.split(" ")
     ops = a[3].split(";") if a[3] != "-" else []
-    want_reports, want_prom = spec_ipc(ops)
+    want_reports, want_prom = spec_ipc(ops, geo=a[2] == "1")
     d = kv(impl)
     got_reports = [parse_items(x) for x in d["reports"].split("/")] if d["reports"] != "-" else []
     if len(got_reports) != len(want_reports):
         return "printMetrics was called %d times but %d reports were read" % (len(want_reports), len(got_reports))
     for i, (w, g) in enumerate(zip(want_reports, got_reports)):
         for k, v in w.items():
+            if k == "cc":
+                got_cc = {x[3:]: y for x, y in g.items() if x.startswith("cc.")}
+                if got_cc != {c: str(n) for c, n in v.items()}:
+                    return ("country figures in report %d are %s; counting each (proxy type, address) pair once, at its first accepted "
+                            "poll of the period, gives %s" % (i + 1, got_cc, v))
+                continue
             if g.get(k) != str(v):
-                what = "unique-address figure" if k.startswith("ips") else "rounded log count"
+                what = ("unique-address figure" if k.startswith("ips") else
+                        "NAT-type figure (distinct addresses by the NAT type of their first accepted poll per proxy type)" if k.startswith("nat.")
+                        else "rounded log count")
                 return "%s `%s` in report %d is %s; the true figure is %d" % (what, k, i + 1, g.get(k), v)
     got_prom = parse_items(d["prom"])
     for k, v in want_prom.items():
@@ -143,6 +186,10 @@ def key_ipc(line, impl):
     p = prop_ipc(line, impl) or ""
     if "unique-address" in p:
         return "unique-address-count"
+    if "NAT-type figure" in p:
+        return "nat-bucket-count"
+    if "country figures" in p:
+        return "country-count"
     if "rounded log count" in p:
         return "log-count-rounding"
     if "prometheus" in p:
@@ -228,6 +275,15 @@ def gen_ipc(ctx):
             n = rng.randrange(3)
             ops += [poll("m", addr=a, t=t, n=n), "cm,%d" % (2 if n in (0, 1) else 0)]
         add(1, ops + ["pr", "ze", "pr"], "ipc-unique-addresses")
+    # NAT-type and country figures: what counts is the FIRST accepted poll of each (type, address) in the period
+    b = tab[1] if len(tab) > 1 else tab[0]
+    for seq in ([(a, 0, 1), (a, 1, 2), (a, 0, 2)], [(a, 0, 0), (b, 0, 1), (a, 4, 2), (a, 5, 1)], [(a, 0, 2), (a, 0, 1), (b, 3, 2), (b, 3, 0)],
+                [(a, 2, 1), (b, 2, 1), (a, 1, 1)]):
+        for g in (1, 0):
+            ops = []
+            for (ad, t, n) in seq:
+                ops += [poll("m", addr=ad, t=t, n=n), "cm,%d" % (2 if n in (0, 1) else 0)]
+            add(g, ops + ["pr", "ze"] + ops[-2:] + ["pr"], "ipc-nat-and-country-first-sighting")
     # slow cases: idle polls (10 s broker timeout) and client timeouts, placed just before a report
     for _ in range(6 if not thorough else 60):
         ops = []
@@ -479,6 +535,142 @@ def gen_jipc(ctx):
     return lines, kinds
 
 
+# ---------------------------------------------------------------- journal sink that fails
+def parse_lines(tok):
+    """-> list of None (unparsable line) | (start, end, card)"""
+    return [None if c == "x" else tuple(map(int, c.split(":"))) for c in tok.split(";")] if tok != "-" else []
+
+
+def check_spans(lines, adds):
+    """every chunk that can be read back must hold exactly the addresses recorded inside its own recording span:
+    adds = [(tick, ip)]; a chunk [s, e] with more addresses than were recorded in [s, e) carries recordings from outside"""
+    for c in lines:
+        if c is None:
+            continue
+        s, e, card = c
+        if e < s:
+            return ("journal-writer", "chunk [%d,%d] ends before it starts" % (s, e))
+        inside = set(ip for (t, ip) in adds if s <= t < e)
+        before = set(ip for (t, ip) in adds if t < e)
+        if card != len(inside):
+            if card > len(inside) and card <= len(before):
+                return ("journal-chunk-span-excludes-recordings",
+                        "after a failed journal write: chunk labelled [%d,%d] holds %d distinct addresses but only %d were recorded inside that "
+                        "span (%d up to its end): it carries recordings made BEFORE its recording start, so a window query reports addresses "
+                        "not recorded inside the window" % (s, e, card, len(inside), len(before)))
+            return ("journal-writer", "chunk [%d,%d] holds %d distinct addresses; %d were recorded in that span" % (s, e, card, len(inside)))
+    return None
+
+
+def prop_jwf(line, impl):
+    a = line.split(" ")
+    ops = a[4].split(",") if a[4] != "-" else []
+    adds = [(int(o[1:].split(".")[0]), o[1:].split(".")[1]) for o in ops if o[0] == "a"]
+    d = kv(impl)
+    lines = parse_lines(d["lines"])
+    bad = check_spans(lines, adds)
+    if bad:
+        return bad
+    if any(c is None for c in lines) != (d["all"] == "err"):
+        return ("journal-failing-sink", "lines=%s but the reader answered all=%s" % (d["lines"], d["all"]))
+    if d["all"] != "err":
+        upto = max([c[1] for c in lines] + [0])
+        want = len(set(ip for c in lines for (t, ip) in adds if c[0] <= t < c[1]))
+        if int(d["all"]) != want:
+            return ("journal-failing-sink", "whole-journal distinct count %s; the chunks in the file span %d distinct recorded addresses (up to %d)"
+                    % (d["all"], want, upto))
+    return None
+
+
+def prop_jipcf(line, impl):
+    a = line.split(" ")
+    ops = parse_jipc_ops(a[4])
+    adds = [(t, ip) for (k, t, ip, ty, out) in ops if k == "p" and out == "a"]
+    d = kv(impl)
+    lines = parse_lines(d["lines"])
+    bad = check_spans(lines, adds)
+    if bad:
+        return bad
+    if any(c is None for c in lines) != (d["wins"] == "err"):
+        return ("journal-failing-sink", "lines=%s but the reader answered wins=%s" % (d["lines"], d["wins"]))
+    if d["wins"] not in ("err", "-"):
+        good = [c for c in lines if c is not None]
+        for w in d["wins"].split(","):
+            ij, sm, n = w.split(":")
+            i, j = map(int, ij.split("-"))
+            frm, to = good[i][0], good[j][1]
+            inside = [c for c in good if frm <= c[0] and c[1] <= to]
+            want = set(ip for c in inside for (t, ip) in adds if c[0] <= t < c[1])
+            if int(n) != len(inside) or int(sm) != len(want):
+                return ("journal-broker-window", "window [%d,%d]: reader says %s addresses in %s chunks; the %d chunks inside it span %d "
+                        "distinct accepted-poll addresses" % (frm, to, sm, n, len(inside), len(want)))
+    # the metrics never notice the journal's trouble
+    sets = {u: set() for u in range(5)}
+    for (k, t, ip, ty, out) in ops:
+        if k == "z":
+            sets = {u: set() for u in range(5)}
+        elif k == "p" and out == "a":
+            sets[ty if ty < 4 else 4].add(ip)
+    want = [len(sets[u]) for u in range(4)] + [sum(len(x) for x in sets.values())]
+    if d["uniq"].split(".") != [str(x) for x in want]:
+        return ("unique-address-count", "unique-address figures are %s with a failing journal sink; the distinct addresses per type are %s"
+                % (d["uniq"], ".".join(map(str, want))))
+    return None
+
+
+def gen_failing_sink(ctx):
+    """writer ops against a sink that fails at chosen Write calls: (journal lines, broker lines)"""
+    rng = ctx.rng
+    thorough = ctx.tier == "thorough"
+    jl, jk, bl, bk = [], [], [], []
+    modes = "ntlws"
+    # every failure mode at the first, a middle and the last flush of a fixed history with distinct addresses
+    hist = ["a1.1", "a2.2", "f3", "a4.3", "a5.4", "f6", "a7.5", "f8", "a9.6", "f10"]
+    for m in modes:
+        for pos in range(4):
+            plan = "o" * pos + m
+            jl.append("%s jwf 100 %s %s" % (AREA, plan, ",".join(hist))); jk.append("jwf-one-failure")
+        jl.append("%s jwf 100 %s %s" % (AREA, m + m, ",".join(hist))); jk.append("jwf-two-failures")
+    # the automatic flush of AddIPToSet fails (interval elapsed), then an explicit flush succeeds
+    for m in modes:
+        jl.append("%s jwf 2 %s a1.1,a2.2,a5.3,a6.4,f7,a8.5,f12" % (AREA, m)); jk.append("jwf-auto-flush-fails")
+        jl.append("%s jwf 2 %s a1.1,a5.2,a9.3,a13.4,f14" % (AREA, "o" + m + m)); jk.append("jwf-auto-flush-fails")
+    for _ in range(50 if not thorough else 600):
+        k = rng.choice([1, 2, 3, 100])
+        t, ops, nflush = 0, [], 0
+        for i in range(rng.randrange(3, 12)):
+            t += rng.choice([1, 1, 2, k + 1] if k < 100 else [1, 1, 2])   # k = 100: explicit flushes only
+            if rng.random() < 0.3:
+                ops.append("f%d" % t); nflush += 1
+            else:
+                ops.append("a%d.%d" % (t, 100 + len(ops)))   # distinct addresses: every misplaced recording shows
+        ops.append("f%d" % (t + 1))
+        plan = "".join(rng.choice("ooo" + modes) for _ in range(rng.randrange(1, 8)))
+        jl.append("%s jwf %d %s %s" % (AREA, k, plan, ",".join(ops))); jk.append("jwf-random")
+    # the same behind the broker's ProxyPolls
+    bh = ["p1.1.0.a", "p2.2.0.a", "f3", "p4.3.1.a", "p5.1.0.a", "f6", "p7.4.0.a", "z8", "p9.5.4.a", "f10"]
+    for m in modes:
+        for pos in range(3):
+            bl.append("%s jipcf 100 %s %s" % (AREA, "o" * pos + m, ",".join(bh))); bk.append("jipcf-one-failure")
+        bl.append("%s jipcf 2 %s p1.1.0.a,p2.2.0.a,p5.3.0.a,p6.4.1.a,f7,p8.5.0.a,f12" % (AREA, m)); bk.append("jipcf-auto-flush-fails")
+    for _ in range(12 if not thorough else 200):
+        k = rng.choice([2, 3, 100])
+        t, ops = 0, []
+        for i in range(rng.randrange(3, 10)):
+            t += rng.choice([1, 1, 2, k + 1] if k < 100 else [1, 1, 2])
+            r = rng.random()
+            if r < 0.25:
+                ops.append("f%d" % t)
+            elif r < 0.3:
+                ops.append("z%d" % t)
+            else:
+                ops.append("p%d.%d.%d.a" % (t, 100 + len(ops), rng.choice([0, 0, 1, 5])))
+        ops.append("f%d" % (t + 1))
+        plan = "".join(rng.choice("ooo" + modes) for _ in range(rng.randrange(1, 6)))
+        bl.append("%s jipcf %d %s %s" % (AREA, k, plan, ",".join(ops))); bk.append("jipcf-random")
+    return jl, jk, bl, bk
+
+
 def key_of(line, impl, model):
     a = line.split(" ")
     op = a[1]
@@ -493,6 +685,13 @@ def key_of(line, impl, model):
             return (prop_jipc(line, impl) or ("journal-broker", None))[0]
         except (ValueError, KeyError, IndexError):
             return "journal-broker"
+    if op in ("jwf", "jipcf"):
+        try:
+            return ((prop_jwf if op == "jwf" else prop_jipcf)(line, impl) or ("journal-failing-sink", None))[0]
+        except (ValueError, KeyError, IndexError):
+            return "journal-failing-sink"
+    if op == "sched":
+        return "rounded-counter-forced-schedule"
     if op == "ipc":
         try:
             return key_ipc(line, impl)
@@ -526,6 +725,26 @@ def gen_round8(ctx):
     for k in ((2, 2, 3, 8) if not thorough else (2, 2, 3, 4, 5, 8)):
         add("race %d %d" % (k, rounds), "inc-race-at-boundary")
     add("race 1 50", "inc-race-at-boundary")
+    # the interleaving machine runr on explicit schedules, forced on the real counter (lock acquisition order)
+    import itertools
+    for n in range(0, 7):
+        for sc in itertools.product("01", repeat=n):
+            add("sched 2 %s" % (".".join(sc) or "-"), "sched-exhaustive-2-threads")
+    for k in (1, 2, 3, 5):
+        # round robin: every Inc is contended at every step; crosses the multiples of 8 several times
+        add("sched %d %s" % (k, ".".join(str(i % k) for i in range(45 * k))), "sched-round-robin")
+        # one thread at a time
+        add("sched %d %s" % (k, ".".join(str(t) for t in range(k) for _ in range(5 * 9))), "sched-bursts")
+    for _ in range(60 if not thorough else 800):
+        k = rng.choice([1, 2, 2, 3, 4, 6])
+        n = rng.choice([5, 20, 45, 90, 200])
+        bias = rng.random()
+        cur, sc = 0, []
+        for _ in range(n):
+            if rng.random() > bias:
+                cur = rng.randrange(k)
+            sc.append(str(cur))
+        add("sched %d %s" % (k, ".".join(sc)), "sched-random")
     return lines, kinds
 
 
@@ -544,10 +763,11 @@ def run(ctx):
     ctx.trusted.append("HyperLogLog++ sketch (library): modelled as the exact set of masked values, checked on small sets only; "
                        "HMAC-SHA3 mask modelled as an injective function")
     lines, kinds = gen_journal(ctx)
-    ctx.correspond(jexe, lines, kinds, label="ip-journal", prop=prop, key_of=key_of)
+    fj, fjk, fb, fbk = gen_failing_sink(ctx)
+    ctx.correspond(jexe, lines + fj, kinds + fjk, label="ip-journal", prop=prop, key_of=key_of)
     # the journal behind the real IPC.ProxyPolls (call site: every accepted poll is recorded at its instant)
     lines, kinds = gen_jipc(ctx)
-    ctx.correspond(exe, lines, kinds, label="broker-journal-call-site", prop=prop, key_of=key_of, impl_args=DRV_ARGS)
+    ctx.correspond(exe, lines + fb, kinds + fbk, label="broker-journal-call-site", prop=prop, key_of=key_of, impl_args=DRV_ARGS)
 
 
 def replay(ctx, doc):
@@ -560,7 +780,7 @@ def replay(ctx, doc):
         if not case:
             continue
         m = vlib.run_model([case])[0]
-        if case.split(" ")[1] in ("jwin", "jwrite", "jkey"):
+        if case.split(" ")[1] in ("jwin", "jwrite", "jkey", "jwf"):
             rc, r, err = vlib.run_impl(vlib.go_build("./zz_verif/c19journal"), [case])
         else:
             rc, r, err = vlib.run_impl(exe, [case], args=DRV_ARGS)
